@@ -12,7 +12,9 @@ Record rcase := mk {
   r_fetch : list (Z * fetch_outcome);   (* what fetching each CRL URL gives *)
   r_now : Z; r_st : Z;
   r_impl : option (list pos_out);       (* None = InvalidChainError, no results *)
-  r_panicked : bool
+  r_panicked : bool;
+  r_iso : option (list pos_out);        (* C06 isolation: results of the companion run (None = not run) *)
+  r_isopos : Z                          (* the position whose own URLs behave identically in both runs *)
 }.
 
 Fixpoint assoc {A} (d : A) (l : list (Z * A)) (k : Z) : A :=
